@@ -278,6 +278,63 @@ func raceScenarios() []raceScenario {
 			refcodec.Encode(&refcodec.Packet{Type: refcodec.SUBSCRIBE, ID: 4, Topics: [][]byte{[]byte("b")}, QoSs: []byte{0}})...))
 		vsched.Quiesce()
 	}, false})
+	// (ix) Server.Close || a client that is just connecting
+	out = append(out, raceScenario{"Server.Close || connecting client", func() {
+		t := newTD()
+		t.connect("A", 0, 65535, false)
+		if vsched.Failed() {
+			return
+		}
+		vsched.Mark()
+		vsched.Go("closer", func() { t.w.Svr.Close() })
+		vsched.Go("client-N", func() {
+			rc, err := t.w.Dial("N")
+			if err != nil {
+				return
+			}
+			rc.Dead = true
+			rc.Conn.Write(append(refcodec.Encode(ConnectPacket(ConnectOpts{ClientID: "n", Clean: true, KeepAlive: 600})),
+				refcodec.Encode(&refcodec.Packet{Type: refcodec.SUBSCRIBE, ID: 4, Topics: [][]byte{[]byte("t")}, QoSs: []byte{0}})...))
+		})
+		vsched.Quiesce()
+	}, false})
+	// (x) in-process Subscribe / Unsubscribe || network publish on the same topic
+	out = append(out, raceScenario{"in-process Subscribe+Unsubscribe || network publish", func() {
+		t := newTD()
+		p := t.connect("P", 0, 65535, false)
+		s := t.connect("S", 0, 65535, false)
+		t.subscribe("S", "t", 1)
+		f := service.OnPublishFunc(func(msg *message.PublishMessage) error { return nil })
+		g := service.OnPublishFunc(func(msg *message.PublishMessage) error { return nil })
+		t.w.Svr.Subscribe("t", 1, &g)
+		if vsched.Failed() {
+			return
+		}
+		vsched.Mark()
+		p.rc.Conn.Write(refcodec.Encode(&refcodec.Packet{Type: refcodec.PUBLISH, Topic: []byte("t"), QoS: 1, ID: 7, Retain: true, Payload: []byte("m1")}))
+		vsched.Go("local-sub", func() { t.w.Svr.Subscribe("t", 0, &f) })
+		vsched.Go("local-unsub", func() { t.w.Svr.Unsubscribe("t", &g) })
+		_ = s
+		vsched.Quiesce()
+	}, false})
+	// (xi) two handshakes with one client id at the same time
+	out = append(out, raceScenario{"two overlapping handshakes with one client id", func() {
+		t := newTD()
+		a, err := t.w.Dial("A")
+		if err != nil {
+			return
+		}
+		b, err := t.w.Dial("B")
+		if err != nil || vsched.Failed() {
+			return
+		}
+		vsched.Mark()
+		a.Conn.Write(refcodec.Encode(ConnectPacket(ConnectOpts{ClientID: "x", Clean: false, KeepAlive: 600, Will: &Will{"w/a", "will of A", 1, false}})))
+		b.Conn.Write(refcodec.Encode(ConnectPacket(ConnectOpts{ClientID: "x", Clean: false, KeepAlive: 600, Will: &Will{"w/b", "will of B", 0, false}})))
+		vsched.Quiesce()
+		a.Cut()
+		vsched.Quiesce()
+	}, false})
 	return out
 }
 
